@@ -50,8 +50,9 @@ class Mod:
 class Func:
     mod: Mod
     qualname: str
-    node: ast.FunctionDef | ast.AsyncFunctionDef
+    node: ast.FunctionDef | ast.AsyncFunctionDef  # normalised body (helpers of later origin and pure locals inlined)
     cls: ast.ClassDef | None = None  # innermost enclosing class
+    raw: ast.FunctionDef | ast.AsyncFunctionDef | None = None  # the function as written
 
     @property
     def where(self) -> str:
@@ -108,6 +109,42 @@ class Repo:
                 name, p, rel, src, tree, hashlib.sha256(src.encode()).hexdigest()[:16]
             )
         self._classes: dict[str, list[Cls]] | None = None
+        self._norm_cache: dict[tuple[str, str], ast.FunctionDef] = {}
+        self._inliners: dict[str, object] = {}
+        self.normalize = not os.environ.get("PYOAK_VERIF_NO_NORMALIZE")
+        self.new_helpers_inlined: set[str] = set()
+        self.new_helpers_failed: set[str] = set()
+
+    def _normalised(self, m: Mod, qualname: str, node, cls):
+        if not self.normalize:
+            return node
+        key = (m.name, qualname)
+        if key not in self._norm_cache:
+            from .normalize import HelperInliner, load_baseline, normalize
+            if not hasattr(self, "_baseline"):
+                self._baseline = load_baseline()
+            inl = self._inliners.get(m.name)
+            if inl is None:
+                inl = HelperInliner(m.tree, m.name, self._baseline)
+                self._inliners[m.name] = inl
+            try:
+                self._norm_cache[key] = normalize(node, cls, qualname, inl)
+            except RecursionError:
+                self._norm_cache[key] = node
+            self.new_helpers_inlined |= {f"{m.name}:{q}" for q in inl.inlined}
+            self.new_helpers_failed |= {f"{m.name}:{q}" for q in inl.failed}
+        return self._norm_cache[key]
+
+    def is_new_helper(self, m: Mod, qualname: str) -> bool:
+        """A private function that does not exist on the pinned tree."""
+        if not self.normalize:
+            return False
+        from .normalize import load_baseline
+        if not hasattr(self, "_baseline"):
+            self._baseline = load_baseline()
+        known = self._baseline.get(m.name)
+        last = qualname.split(".")[-1]
+        return known is not None and qualname not in known and last.startswith("_") and not (last.startswith("__") and last.endswith("__"))
 
     # ------------------------------------------------------------------ modules
     def mod(self, name: str) -> Mod:
@@ -149,7 +186,7 @@ class Repo:
             body = found.body
         if not isinstance(node, (ast.FunctionDef, ast.AsyncFunctionDef)):
             raise AnchorMissing(f"{modname}:{qualname} is not a function")
-        return Func(m, qualname, node, cls)
+        return Func(m, qualname, self._normalised(m, qualname, node, cls), cls, node)
 
     def has_func(self, modname: str, qualname: str) -> bool:
         try:
@@ -175,7 +212,10 @@ class Repo:
             for st in _iter_defs(body):
                 if isinstance(st, (ast.FunctionDef, ast.AsyncFunctionDef)):
                     q = f"{prefix}{st.name}"
-                    yield Func(m, q, st, cls)
+                    if self.is_new_helper(m, q) and f"{m.name}:{q}" not in self.new_helpers_failed:
+                        # analysed inlined at its call sites (normalize.py); nested defs of a new helper likewise
+                        continue
+                    yield Func(m, q, self._normalised(m, q, st, cls), cls, st)
                     yield from rec(m, st.body, q + ".", cls)
                 elif isinstance(st, ast.ClassDef):
                     yield from rec(m, st.body, f"{prefix}{st.name}.", st)
